@@ -13,3 +13,15 @@ pub mod shapes;
 
 #[cfg(all(kani, not(feature = "counters")))]
 mod h_step;
+#[cfg(all(kani, not(feature = "counters")))]
+mod h_cap;
+#[cfg(all(kani, not(feature = "counters")))]
+mod h_zst;
+#[cfg(all(kani, not(feature = "counters")))]
+mod h_panic;
+#[cfg(all(kani, not(feature = "counters")))]
+mod h_iter;
+#[cfg(all(kani, not(feature = "counters")))]
+mod h_retain;
+#[cfg(all(kani, not(feature = "counters")))]
+mod h_probe;
